@@ -41,7 +41,7 @@ CHECKS["C04"] = dict(
         "Python list reference; concurrency runs (thread and process workers, in_order true/false, max_concurrent, prebatch, randomised per-item delays) checked against the list reference; "
         "scheduler-driven runs of the real threads replayed step by step on the interleaving model ConcModel.v (in_order and unordered).",
    design="DESIGN.md 4 C04",
-   note="Trusted: Coq kernel + vm_compute; deterministic thread scheduler (harness/sched_threads.py) for the interleaving-level cases, delay jitter for the process-worker cases; harness user code. The theorem that every interleaving refines the sequential semantics is not yet proved for the concurrent model (the sequential theorems are); it is checked by lockstep correspondence.",
+   note="Trusted: Coq kernel + vm_compute; deterministic thread scheduler (harness/sched_threads.py) for the interleaving-level cases, delay jitter for the process-worker cases; harness user code. Interleaving-level theorems (every schedule without a reader-join timeout, every reachable state): C04_prefetcher_is_identity and C04_parallel_mapper_is_ordered_map (ParallelMapper in_order, thread workers: delivered items = map_fn over the source prefix, in order, each once; index discipline C04_parallel_mapper_index_discipline). in_order=False and process workers are checked by correspondence+oracle only.",
    technique="Coq proof over hand-written Gallina model + lockstep correspondence (vm_compute) + direct oracle")
 CHECKS["C13"] = dict(
    text="Loader front-end (flag machine _it/_iter_for_state_dict/_next_iter_state_dict, LoaderIterator look-ahead) inside the Gallina node model; theorems in Properties_C13.v. "
@@ -122,14 +122,14 @@ CHECKS["C06"] = dict(
         "__init__/__next__/_shutdown, QueueSnapshotStore, reset() as generations of iterators over one shared source; one model step = one queue/semaphore/event/join/sleep "
         "primitive; timeouts are schedule choices). Theorems in Properties_C06.v: for the Prefetcher, in every reachable state of every schedule without a reader-join timeout, "
         "snapshot + steps = start position + items received (the consumer position, never the reader's), over any script incl. resets and loads; pop_version discipline for every store; "
-        "for ParallelMapper(in_order) the same statement is the target. Tie to the code: the REAL threads are run under a deterministic scheduler (every primitive a yield point) and the recorded "
+        "the same statement is proved for ParallelMapper(in_order=True) over every interleaving of reader, workers, sorter and consumer (C06_parallel_mapper_tracks_consumer, invariant PMinv in ConcPM.v), hence C06_tracks_consumer_jt_free for both node kinds. Tie to the code: the REAL threads are run under a deterministic scheduler (every primitive a yield point) and the recorded "
         "schedule is replayed on the model, compared at EVERY step (pending primitive, offered moves, semaphore, queue contents, store versions) and on every outcome; "
         "oracle: each state_dict() denotes exactly the consumer position and each continuation after a load equals the reference.",
    design="DESIGN.md 4 C06",
    note="Trusted: Coq kernel + vm_compute; the cooperative primitives of harness/sched_threads.py (linearizable, GIL-atomic attribute reads); instrumented source whose state is its position; "
-        "schedules in which a join() of an old reader times out belong to C12's known finding D10 and are excluded here; the invariant snap+steps = consumer position is proved for Prefetcher and, for ParallelMapper, checked by "
-        "correspondence+oracle on every case (partial in that sense).",
-   technique="Coq proof (store discipline) over hand-written interleaving model + step-by-step lockstep correspondence under a deterministic thread scheduler + direct oracle")
+        "schedules in which a join() of an old reader times out belong to C12's known finding D10 and are excluded here; the invariant snap+steps = consumer position is proved for Prefetcher and ParallelMapper(in_order=True); in_order=False is checked by "
+        "correspondence+oracle on every case.",
+   technique="Coq proof (consumer-position invariant over all schedules, store discipline) over hand-written interleaving model + step-by-step lockstep correspondence under a deterministic thread scheduler + direct oracle")
 CHECKS["C11"] = dict(
    text="Same interleaving model. Theorems in Properties_C11.v: every wait is timed (a thread that has not finished always has a move, in ANY state), no reachable state of any schedule "
         "is a deadlock while the consumer's script is unfinished (the consumer is always inside an operation whose pending primitive is enabled or timed), next() after the stop event is "
